@@ -147,7 +147,7 @@ def run(ctx):
                 "(or a raw-mode run with >=4 deliveries); distinct over (qtype, upstream codec, downstream codec, "
                 "fragsize bucket, -M, lazy, raw/dns, fault class, #clients).")
     res.assumptions = ["shim fidelity (DESIGN 3.2)", "zlib adler32 turns most mis-reassembly into drops (C02 catches those)"]
-    n = ctx.pick(64, 1500)
+    n = ctx.pick(160, 12000)
     rng = random.Random(ctx.seed * 7717 + 1)
     plist = []
     for i in range(n):
